@@ -7,6 +7,7 @@ from ..r_hygiene import rule_hygiene as _rule_hygiene
 from ..r_canon import rule_bare_string_for_reaction as _rule_bare
 from ..r_construct import rule_protocol_dunders as _rule_dunders
 from ..r_reaction import rule_hash_covers_eq as _rule_hash_eq, rule_fragment_counter as _rule_fragcount
+from ..r_round9 import rule_positional_radical_list as _r9_rad
 
 LEVEL = 'other'
 
@@ -25,3 +26,4 @@ def run(ck, repo):
     _rule_hash_eq(ck, repo, 'C15.D3-hash-covers-eq', ['chython.periodictable.base.dynamic:DynamicElement', 'chython.containers.bonds:DynamicBond',
                                                      'chython.containers.bonds:QueryBond'])
     _rule_dunders(ck, repo, 'C15.D0-container-protocols', ['chython.containers.cgr:CGRContainer', 'chython.containers.molecule:MoleculeContainer', 'chython.containers.reaction:ReactionContainer'])
+    _r9_rad(ck, repo, 'C15.D6-positional-radical-list')
